@@ -211,6 +211,57 @@ def run_one_forked(fn, arg, timeout=300.0) -> dict:
     return pool.drain()[0][1]
 
 
+def fork_call(fn, arg, timeout=600.0):
+    """``fn(arg)`` in a fresh fork of this process, result returned by pickle (numpy arrays, tuple keys...).  Each scenario run of a
+    multi-run case gets its own fork, the way real runs get their own processes: whatever a run leaves behind at module or class level
+    (caches, counters) cannot reach the next one and make it agree."""
+    import pickle
+
+    rfd, wfd = os.pipe()
+    sys.stdout.flush()
+    sys.stderr.flush()
+    pid = os.fork()
+    if pid == 0:
+        os.close(rfd)
+        status = 0
+        try:
+            signal.signal(signal.SIGINT, signal.SIG_DFL)
+            try:
+                payload = ("ok", fn(arg))
+            except BaseException as exc:  # noqa: BLE001
+                payload = ("err", f"{type(exc).__name__}: {exc}", traceback.format_exc())
+            with os.fdopen(wfd, "wb") as f:
+                pickle.dump(payload, f, protocol=4)
+        except BaseException:  # noqa: BLE001
+            status = 3
+        finally:
+            os._exit(status)
+    os.close(wfd)
+    buf = bytearray()
+    t0 = time.monotonic()
+    try:
+        while True:
+            if time.monotonic() - t0 > timeout:
+                os.kill(pid, signal.SIGKILL)
+                os.waitpid(pid, 0)
+                raise HarnessError(f"fork_call: {getattr(fn, '__name__', fn)} did not finish within {timeout}s")
+            rl, _, _ = select.select([rfd], [], [], 0.2)
+            if rl:
+                chunk = os.read(rfd, 1 << 20)
+                if not chunk:
+                    break
+                buf += chunk
+    finally:
+        os.close(rfd)
+    _, st = os.waitpid(pid, 0)
+    if not buf:
+        raise HarnessError(f"fork_call: child died without output (wait status {st})")
+    payload = pickle.loads(bytes(buf))
+    if payload[0] != "ok":
+        raise HarnessError(f"fork_call: {payload[1]}\n{payload[2]}")
+    return payload[1]
+
+
 # ---------------------------------------------------------------------------------------------
 # known findings
 # ---------------------------------------------------------------------------------------------
